@@ -100,6 +100,20 @@ CLAIMS['C11'] = dict(
          'The bounded stand-in is listed in coverage.bounded_standins_not_proofs and is not counted in '
          'obligations/discharged.')
 
+CLAIMS['C32'] = dict(
+    category='proof',
+    text='TaskProxy.clock_expire is proved: True iff an expiry time is configured, the task is not already '
+         'expired and the clock has reached it. TaskPool.clock_expire_tasks is proved to send the "expired" '
+         'message only for tasks that are not manually triggered, waiting and past their expiry time: the '
+         'condition is a precondition of the message sink process_message and is discharged at the call site '
+         'for every pool. TaskProxy.state_reset("expired") clears the queued and runahead flags and the task '
+         'was taken out of its queue just before (so the queue cannot release it). A census lists every '
+         'sender of the expired message in the package.',
+    note=_PROOF_NOTE + 'Assumed: the wall clock is constant during one call (A-CLOCK); process_message is an '
+         'assumed sink (its expired branch - state reset then spawn_children(expired) only - is not verified '
+         'against the 250-line body); the experimental expire_triggers suicide branch of spawn_on_output '
+         'expires tasks by design and is listed by the census, not proved.')
+
 NOT_APPLICABLE = {
     'C01': 'equality between the set of instances submitted over a whole run and the spawn-on-demand closure, for '
            'every schedule: a whole-history property; no postcondition of one call states it. Its per-call '
